@@ -216,6 +216,7 @@ var preludeC10 = []input{
 	{src: `func pan(n){for i=0:n{if i==1{vpanic()}}}; func pan2(n){pan(n)}; func pan3(a){vprobe(); vpanic()}`, skel: "(S)"},
 	{src: `func spin(){for true {}}; func pr(a){vprobe(); println(a)}`, skel: "(S)"},
 	{src: `func fact(n){if n<=1 {return 1}; n*fact(n-1)}; cnt=0`, skel: "(S)"},
+	{src: `down = func(n){println("at",n); self(n+1)}; hello = func(who){println("hello",who); len(who)}; ppan = func(n){println("pp",n); if n>=2 {vpanic()}; ppan(n+1)}; hello("a")`, skel: "(S (C 0 (S)))"},
 	{src: `func stray(){break}; func strayc(){continue}; func sn(n){if n<=0 {break}; sn(n-1)}; func en(n){if n<=0 {error("deep err")}; en(n-1)+0}`, skel: "(S)"},
 }
 
@@ -239,6 +240,11 @@ var failing = []input{
 	{src: `for true {}`, skel: "(S e)", fail: "deadline-toplevel", maxMs: 4 * time.Millisecond},
 	{src: `spin()`, skel: "(S (C 0 (S e)))", fail: "deadline-in-function", maxMs: 4 * time.Millisecond},
 	{src: `for a=0:2{spin()}`, skel: "(S (L 11 (S (C 0 (S e)))))", fail: "deadline-in-function-in-loop", maxMs: 4 * time.Millisecond},
+	// functions that PRINT (into their per-call buffers) at several depths before a panic: nothing of it may reach the
+	// session writer, neither now nor with the output of a later call
+	{src: `down(0)`, skel: "(S (C 1 d))", fail: "depth-overflow-after-prints-in-functions", depth: 60},
+	{src: `ppan(0)`, skel: "(S (C 1 (S (C 1 (S (C 1 (S p)))))))", fail: "panic-after-prints-in-functions"},
+	{src: `for a=0:2{hello("x"); ppan(1)}`, skel: "(S (L 11 (S (C 0 (S)) (C 1 (S (C 1 (S p)))))))", fail: "panic-after-prints-in-functions-in-loop", neutral: true},
 	// control statements outside loops: ordinary errors raised at an Eval boundary
 	{src: `break`, skel: "(S b)", fail: "stray-break-toplevel"},
 	{src: `continue`, skel: "(S c)", fail: "stray-continue-toplevel"},
@@ -730,7 +736,8 @@ func runC10(c *Ctx) {
 			base = append(base, g.next())
 		}
 		// the base always ends with inputs that show the accumulated state
-		base = append(base, input{src: `cnt = cnt + 1; println(cnt)`, skel: "(S)"}, input{src: `pr(77)`, skel: "(S (C 1 (S P)))"})
+		base = append(base, input{src: `cnt = cnt + 1; println(cnt)`, skel: "(S)"}, input{src: `pr(77)`, skel: "(S (C 1 (S P)))"},
+			input{src: `hello("bc")`, skel: "(S (C 0 (S)))"}, input{src: `for i=0:2{hello("bc"); hello("d")}`, skel: "(S (L 11 (S (C 0 (S)) (C 0 (S))) (S (C 0 (S)) (C 0 (S)))))"})
 		noReg := b%5 == 4
 		lastPos := len(base) // failing inputs go anywhere before the budget probes
 		base = append(base, budgetProbes(c, noReg)...)
@@ -774,7 +781,7 @@ func runC10(c *Ctx) {
 		for c.R.Pct(30) {
 			h = append(h, failing[c.R.Intn(len(failing))])
 		}
-		tail := []input{{src: `cnt = cnt + 1; println(cnt)`, skel: "(S)"}, {src: `pr(78)`, skel: "(S (C 1 (S P)))"}}
+		tail := []input{{src: `cnt = cnt + 1; println(cnt)`, skel: "(S)"}, {src: `pr(78)`, skel: "(S (C 1 (S P)))"}, {src: `hello("bcd")`, skel: "(S (C 0 (S)))"}}
 		noReg := c.R.Pct(25)
 		tail = append(tail, budgetProbes(c, noReg)...)
 		base = append(base, tail...)
